@@ -17,6 +17,9 @@
 //     argument (the field returns the new slices after the Go results), `e := F(…, xs)` with an `error` result yields
 //     `(e ≠ nil : Bool, xs')`; arguments that are objects are dropped (the field is closed over them);
 //   - results `(T, error)`: `return nil, <err>` is `none`, `return v, nil` is `some v`;
+//   - `[]bool` / `[][]bool` parameters are `List Bool` / `List (List Bool)` with checked reads (`m[i]`, `row[j]`, `len`); a
+//     `[]bool` local must be a row `row := m[i]`; `var a, b int` declares zero integers; a conditional block with checked
+//     operations is a `Res` of the variables it rebinds (evaluated only when the condition holds);
 //   - statements: `if c { return nil, err }`, `if c { <rebinding statements> }`, `x := e`, `xs[i] = e`, `xs := make([]float64, n)`,
 //     counted loops `for v := a; v < b; v++ | v += k` (any nesting; the body is a lambda, the variables it rebinds are the
 //     loop state), `return`; expressions: integer arithmetic (`/` `%` by non-zero constants), comparisons, `&&` `||`,
@@ -86,6 +89,16 @@ func (c *kfinCtx) kfinType(t types.Type) string {
 	}
 	if s, ok := t.Underlying().(*types.Slice); ok && isFloat(s.Elem()) {
 		return "List F"
+	}
+	if s, ok := t.Underlying().(*types.Slice); ok {
+		if b, ok := s.Elem().Underlying().(*types.Basic); ok && b.Info()&types.IsBoolean != 0 {
+			return "List Bool"
+		}
+		if in, ok := s.Elem().Underlying().(*types.Slice); ok {
+			if b, ok := in.Elem().Underlying().(*types.Basic); ok && b.Info()&types.IsBoolean != 0 {
+				return "List (List Bool)"
+			}
+		}
 	}
 	if types.Identical(t, types.Universe.Lookup("error").Type()) {
 		return "Bool"
@@ -312,7 +325,7 @@ func (c *kfinCtx) expr(ex ast.Expr, pre *[]kfinBind) (string, error) {
 		return "", c.fail("operator %s", x.Op)
 	case *ast.IndexExpr:
 		id, ok := x.X.(*ast.Ident)
-		if !ok || c.locals[id.Name] != "List F" {
+		if !ok || !strings.HasPrefix(c.locals[id.Name], "List ") {
 			return "", c.fail("index expression")
 		}
 		i, err := c.expr(x.Index, pre)
@@ -348,8 +361,18 @@ func (c *kfinCtx) expr(ex ast.Expr, pre *[]kfinBind) (string, error) {
 		if id, ok := x.Fun.(*ast.Ident); ok {
 			if _, isB := c.p.TypesInfo.Uses[id].(*types.Builtin); isB {
 				if id.Name == "len" && len(x.Args) == 1 {
-					if a, ok := x.Args[0].(*ast.Ident); ok && c.locals[a.Name] == "List F" {
+					if a, ok := x.Args[0].(*ast.Ident); ok && strings.HasPrefix(c.locals[a.Name], "List ") {
 						return "(Gzx.GoM.lenA " + a.Name + ")", nil
+					}
+					// len(xs[i]) of a list of lists: the checked row read, then its length
+					if ix, ok := x.Args[0].(*ast.IndexExpr); ok {
+						if lt := c.kfinType(c.p.TypesInfo.TypeOf(ix)); strings.HasPrefix(lt, "List ") {
+							r, err := c.expr(ix, pre)
+							if err != nil {
+								return "", err
+							}
+							return "(Gzx.GoM.lenA " + r + ")", nil
+						}
 					}
 				}
 				return "", c.fail("builtin %s", id.Name)
@@ -674,8 +697,26 @@ func (c *kfinCtx) block(stmts []ast.Stmt, lvl int, tail string) (string, error) 
 			if err != nil {
 				return "", err
 			}
-			if strings.Contains(body, "Gzx.GoM.try") || strings.Contains(body, ".ret ") || c.tmp != save {
-				return "", c.fail("checked operation / return inside a conditional block")
+			if strings.Contains(body, ".ret ") {
+				return "", c.fail("return inside a conditional block")
+			}
+			if strings.Contains(body, "Gzx.GoM.try") || c.tmp != save {
+				// checked operations inside the block: the block is a `Res` of the rebound variables, run only when the
+				// condition holds (translated again at function level so that its checks are `tryR`)
+				c.tmp = save
+				d := c.depth
+				c.depth = 0
+				body, err = c.block(x.Body.List, lvl+2, kfinInd(lvl+2)+".ok "+kfinTuple(vars)+"\n")
+				c.depth = d
+				if err != nil {
+					return "", err
+				}
+				fmt.Fprintf(&sb, "%s%s ((if %s then\n%s%selse\n%s.ok %s : Gzx.Res (%s))) fun st =>\n", kfinInd(lvl), c.try(), cond, body,
+					kfinInd(lvl+1), kfinInd(lvl+2), kfinTuple(vars), c.tupleType(vars))
+				for i, n := range vars {
+					fmt.Fprintf(&sb, "%slet %s := %s\n", kfinInd(lvl), n, kfinProj(i, len(vars)))
+				}
+				continue
 			}
 			fmt.Fprintf(&sb, "%slet %s :=\n%sif %s then\n%s%selse\n%s%s\n", kfinInd(lvl), kfinTuple(vars), kfinInd(lvl+1), cond,
 				body, kfinInd(lvl+1), kfinInd(lvl+2), kfinTuple(vars))
@@ -701,6 +742,22 @@ func (c *kfinCtx) block(stmts []ast.Stmt, lvl int, tail string) (string, error) 
 				return "", err
 			}
 			sb.WriteString(t)
+		case *ast.DeclStmt:
+			// `var a, b int`: zero-initialised integer locals
+			gd, ok := x.Decl.(*ast.GenDecl)
+			if !ok || gd.Tok != token.VAR {
+				return "", c.fail("declaration")
+			}
+			for _, sp := range gd.Specs {
+				vs, ok := sp.(*ast.ValueSpec)
+				if !ok || len(vs.Values) != 0 || c.kfinType(c.p.TypesInfo.TypeOf(vs.Type)) != "Int" {
+					return "", c.fail("var declaration form")
+				}
+				for _, n := range vs.Names {
+					c.locals[n.Name] = "Int"
+					fmt.Fprintf(&sb, "%slet %s : Int := 0\n", kfinInd(lvl), n.Name)
+				}
+			}
 		default:
 			return "", c.fail("statement form %T", s)
 		}
@@ -861,8 +918,13 @@ func (c *kfinCtx) assign(x *ast.AssignStmt, lvl int) (string, error) {
 			return "", c.fail("assignment operator %s", x.Tok)
 		}
 		lt := c.kfinType(c.p.TypesInfo.TypeOf(x.Rhs[0]))
-		if lt != "Int" && lt != "F" && lt != "Bool" {
+		if lt != "Int" && lt != "F" && lt != "Bool" && lt != "List Bool" {
 			return "", c.fail("assignment of type %v", c.p.TypesInfo.TypeOf(x.Rhs[0]))
+		}
+		if lt == "List Bool" {
+			if _, ok := x.Rhs[0].(*ast.IndexExpr); !ok || x.Tok != token.DEFINE {
+				return "", c.fail("a []bool local must be defined as a row `m[i]`")
+			}
 		}
 		v, err := c.expr(x.Rhs[0], &pre)
 		if err != nil {
@@ -1015,7 +1077,7 @@ func kfinishGenFuncE(p *packages.Package, e entry) (string, error) {
 				continue
 			}
 			lt := c.kfinType(t)
-			if lt != "Int" && lt != "F" {
+			if lt != "Int" && lt != "F" && lt != "List Bool" && lt != "List (List Bool)" {
 				return "", fmt.Errorf("parameter %s of type %v", n.Name, t)
 			}
 			c.locals[n.Name] = lt
